@@ -574,6 +574,19 @@ class EvalMixin:
             if fn == "reversed":
                 return self.ev_iter(it.args[0], st, lambda s1, inner: k(s1, ("reversed", inner)))
             raise Unsupported("zip iteration")
+        if isinstance(it, ast.Call) and ast.unparse(it.func) == "itertools.permutations" and len(it.args) == 1:
+            def perms(s1, v):
+                if not (v.meta and v.meta[0] == "tuple"):
+                    raise Unsupported("permutations of a non-static tuple")
+                import itertools
+
+                items = []
+                for p in itertools.permutations(v.meta[1]):
+                    p = list(p)
+                    items.append(SV(smt.mk_tuple([x.t for x in p]), "tuple", ("tuple", p)))
+                return k(s1, ("seq", SV(smt.mk_tuple([x.t for x in items]), "tuple", ("tuple", items))))
+
+            return self.ev(it.args[0], st, perms)
         if isinstance(it, ast.Call) and isinstance(it.func, ast.Attribute) and it.func.attr in ("items", "values", "keys") and not it.args:
             return self.ev(it.func.value, st, lambda s1, d: k(s1, ("dict" + it.func.attr, d)))
         return self.ev(it, st, lambda s1, v: k(s1, ("seq", v)))
